@@ -23,6 +23,8 @@ type Obligation struct {
 	Gen    *Gen
 	// Vacuity / cover checks are "must be sat" queries.
 	MustSat bool
+	seeded  bool
+	caseSub *mergeCase
 	// result
 	Res *SolveResult
 }
@@ -93,12 +95,24 @@ type Gen struct {
 	inlineDepth int
 	quiet       bool // inline mode: no obligations
 	nbound      int
+	heapClk     map[*Term]*Term // heap component version -> clock when it was written
+	mergeCases  map[*Term][]*mergeCase // reach constant of a join block -> incoming cases
+	callOrd     map[string]int
+	usedCallAssumes map[*Clause]bool
 	sentinels   map[*Term]bool
 	defers      []deferred
 	retVals     []retPoint
 	frameIdx    map[string]int
 	inlineCounter *int
 	entryDefs   int // number of defs after preconditions (vacuity check)
+}
+
+// mergeCase: one incoming edge of a join block, with the substitution that
+// replaces the block's merged constants by that predecessor's values.
+type mergeCase struct {
+	Pred *ssa.BasicBlock
+	Cond *Term
+	Sub  map[*Term]*Term
 }
 
 type debugBinding struct {
@@ -137,6 +151,10 @@ func (g *Gen) reset() {
 	g.params = map[string]Val{}
 	g.strLits = map[string]*Term{}
 	g.defers = nil
+	g.callOrd = map[string]int{}
+	g.heapClk = map[*Term]*Term{}
+	g.mergeCases = map[*Term][]*mergeCase{}
+	g.usedCallAssumes = map[*Clause]bool{}
 	g.sentinels = nil
 	g.retVals = nil
 	g.frameIdx = nil
@@ -244,6 +262,9 @@ func (g *Gen) heapGet(st *State, name string, s *Sort) *Term {
 	// in pass 2 every state is initialised with the whole universe)
 	t := Const("H0:"+name, s)
 	st.Heap[name] = t
+	if g.heapClk != nil && g.entry != nil {
+		g.heapClk[t] = g.entry.Clk
+	}
 	return t
 }
 
@@ -253,6 +274,9 @@ func (g *Gen) heapSet(st *State, name string, s *Sort, v *Term) {
 		g.uniOrder = append(g.uniOrder, name)
 	}
 	st.Heap[name] = v
+	if g.heapClk != nil {
+		g.heapClk[v] = st.Clk
+	}
 	st.Epoch = g.fresh("epoch", SInt)
 	if g.curBlock != nil {
 		m := g.writes[g.curBlock]
@@ -343,18 +367,41 @@ func (g *Gen) load(st *State, a *Addr, ty types.Type) Val {
 		}
 		return cur.at(a.Path)
 	}
+	// references read from a heap version are no younger than that version
+	var verClk *Term
 	v := buildVal(ty, func(lf leaf) *Term {
 		name := g.compName(a, lf)
+		var h *Term
+		var r *Term
 		switch a.Root {
 		case RObj:
-			return Select(g.heapGet(st, name, g.compSort(RObj, lf.Sort)), a.Ref)
+			h = g.heapGet(st, name, g.compSort(RObj, lf.Sort))
+			r = Select(h, a.Ref)
 		case RElem:
-			return Select(Select(g.heapGet(st, name, g.compSort(RElem, lf.Sort)), a.Ref), a.Idx)
+			h = g.heapGet(st, name, g.compSort(RElem, lf.Sort))
+			r = Select(Select(h, a.Ref), a.Idx)
 		default:
-			return g.heapGet(st, name, lf.Sort)
+			h = g.heapGet(st, name, lf.Sort)
+			r = h
 		}
+		if c, ok := g.heapClk[h]; ok {
+			if verClk == nil {
+				verClk = c
+			} else if verClk != c {
+				verClk = st.Clk
+			}
+		} else {
+			verClk = st.Clk
+		}
+		return r
 	})
-	g.wfVal(st, v)
+	if verClk != nil && verClk != st.Clk {
+		tmp := *st
+		tmp.Clk = verClk
+		g.wfVal(&tmp, v)
+	} else {
+		g.wfVal(st, v)
+	}
 	if a.Root == RGlobal && len(a.Path) == 0 && !g.P.MutableGlobals[a.Glob] && v.K == VScalar && isErrorType(ty) {
 		g.sentinel(v.T)
 	}
@@ -677,6 +724,7 @@ func (g *Gen) initState() *State {
 	g.assume(Le(IntLit(0), st.Clk))
 	for _, n := range g.uniOrder {
 		st.Heap[n] = Const("H0:"+n, g.universe[n])
+		g.heapClk[st.Heap[n]] = st.Clk
 	}
 	return st
 }
@@ -750,6 +798,13 @@ func (g *Gen) runOnce() error {
 	for _, b := range g.cfg.Order {
 		g.block(b, st)
 	}
+	if g.C != nil {
+		for _, cl := range g.C.CallAssumes {
+			if !g.usedCallAssumes[cl] {
+				g.BindErrs = append(g.BindErrs, fmt.Sprintf("assume %q does not bind to any call site", cl.Text))
+			}
+		}
+	}
 	return nil
 }
 
@@ -790,6 +845,21 @@ func (g *Gen) mergeStates(b *ssa.BasicBlock, preds []*ssa.BasicBlock) *State {
 		return st
 	}
 	st := &State{Reach: reach, Heap: map[string]*Term{}, Locals: map[*ssa.Alloc]Val{}}
+	var cases []*mergeCase
+	for _, i := range ins {
+		cases = append(cases, &mergeCase{Cond: i.cond, Sub: map[*Term]*Term{}})
+	}
+	k := 0
+	for _, p := range preds {
+		ps := g.out[p]
+		c := g.edge[[2]int{p.Index, b.Index}]
+		if ps == nil || c == nil || c.IsFalse() {
+			continue
+		}
+		cases[k].Pred = p
+		k++
+	}
+	g.mergeCases[reach] = cases
 	mergeTerm := func(hint string, s *Sort, get func(*State) *Term) *Term {
 		first := get(ins[0].st)
 		same := true
@@ -802,15 +872,30 @@ func (g *Gen) mergeStates(b *ssa.BasicBlock, preds []*ssa.BasicBlock) *State {
 			return first
 		}
 		m := Const(fmt.Sprintf("%s!%s@%d", g.prefix, hint, b.Index), s)
-		for _, i := range ins {
+		for k, i := range ins {
 			g.assume(Implies(i.cond, Eq(m, get(i.st))))
+			cases[k].Sub[m] = get(i.st)
 		}
 		return m
 	}
 	for _, n := range g.uniOrder {
 		n := n
 		s := g.universe[n]
-		st.Heap[n] = mergeTerm("H:"+n, s, func(x *State) *Term { return g.heapGet(x, n, s) })
+		m := mergeTerm("H:"+n, s, func(x *State) *Term { return g.heapGet(x, n, s) })
+		st.Heap[n] = m
+		if _, known := g.heapClk[m]; !known {
+			// version clock of the merged component: that of whichever predecessor ran
+			vc := Const(fmt.Sprintf("%s!vclk:%s@%d", g.prefix, n, b.Index), SInt)
+			for _, i := range ins {
+				h := g.heapGet(i.st, n, s)
+				c, ok := g.heapClk[h]
+				if !ok {
+					c = i.st.Clk
+				}
+				g.assume(Implies(i.cond, Eq(vc, c)))
+			}
+			g.heapClk[m] = vc
+		}
 	}
 	st.Clk = mergeTerm("clk", SInt, func(x *State) *Term { return x.Clk })
 	st.Epoch = mergeTerm("epoch", SInt, func(x *State) *Term { return x.Epoch })
@@ -905,6 +990,11 @@ func (g *Gen) phi(st *State, b *ssa.BasicBlock, phi *ssa.Phi, preds []*ssa.Basic
 			anyAddr = true
 		}
 		g.equateIf(c, nv, x)
+		for _, mc := range g.mergeCases[st.Reach] {
+			if mc.Pred == p {
+				recordSub(mc.Sub, nv, x)
+			}
+		}
 	}
 	_ = anyAddr
 	g.env[phi] = nv
@@ -1059,6 +1149,46 @@ func (g *Gen) loopHead(b *ssa.BasicBlock, l *Loop, st *State, fwd []*ssa.BasicBl
 	} else if g.C != nil && !g.quiet {
 		g.Abstracted[fmt.Sprintf("loop %d has no invariant (havoc with invariant true)", l.Ordinal)] = true
 	}
+	if loopAllow != nil {
+		// the locations an iteration may write are named relative to the current
+		// iteration (loop-carried variables at the head); each must lie inside what
+		// the clause named at loop entry, or have been allocated since
+		sch := g.specCtx(hs, g.entry, nil)
+		sch.loopHeader = b
+		headAllow := g.allowSets(g.C.LoopMod[l.Ordinal].Mods, sch, fmt.Sprintf("loop %d modifies", l.Ordinal))
+		li.Allow = headAllow
+		var names []string
+		for n := range headAllow {
+			names = append(names, n)
+		}
+		sort.Strings(names)
+		for _, n := range names {
+			for _, ah := range headAllow[n] {
+				if ah.any || ah.sinceEntry || ah.ref == nil {
+					continue
+				}
+				alts := []*Term{Gt(ah.ref, st.Clk)}
+				for _, ae := range loopAllow[n] {
+					if ae.any {
+						alts = append(alts, True)
+						continue
+					}
+					if ae.ref == nil {
+						continue
+					}
+					c := Eq(ae.ref, ah.ref)
+					if ae.lo != nil && ah.lo != nil {
+						c = And(c, Le(ae.lo, ah.lo), Le(ah.hi, ae.hi))
+					}
+					alts = append(alts, c)
+				}
+				goal := Or(alts...)
+				if !goal.IsTrue() {
+					g.oblige(hs, "loop-frame-incl", fmt.Sprintf("@loop%d", l.Ordinal), "loop modifies: the location written by an iteration ("+n+") is the one named at loop entry or was allocated inside the loop", b.Instrs[0].Pos(), goal)
+				}
+			}
+		}
+	}
 	return hs
 }
 
@@ -1132,6 +1262,21 @@ func (g *Gen) backEdge(from, header *ssa.BasicBlock, st *State) {
 				g.BindErrs = append(g.BindErrs, fmt.Sprintf("loop %d decreases %q: %v %v", li.L.Ordinal, dec.Text, err0, err1))
 			} else {
 				g.oblige(bst, "variant", fmt.Sprintf("@loop%d", li.L.Ordinal), "decreases "+dec.Text, header.Instrs[0].Pos(), And(Le(IntLit(0), v0), Lt(v1, v0)))
+			}
+		}
+	}
+}
+
+func recordSub(m map[*Term]*Term, a, b Val) {
+	switch a.K {
+	case VScalar:
+		if b.K == VScalar && a.T != nil && b.T != nil && a.T.S == b.T.S && a.T.Op == "const" {
+			m[a.T] = b.T
+		}
+	case VSlice, VStruct, VTuple:
+		for i := range a.F {
+			if i < len(b.F) {
+				recordSub(m, a.F[i], b.F[i])
 			}
 		}
 	}
